@@ -912,8 +912,11 @@ class UniformGrid(_HyperRectangleGrid):
             weight = np.ones(shape)
             weight_x = _fourier2(shape, 0)
             weight_y = _fourier2(shape, 1)
-            weight_z = _fourier2(shape, 2)
-            weight = np.einsum("ijk,i,j,k->ijk", weight, weight_x, weight_y, weight_z) * alt_volume
+            if len(shape) == 3:
+                weight_z = _fourier2(shape, 2)
+                weight = np.einsum("ijk,i,j,k->ijk", weight, weight_x, weight_y, weight_z) * alt_volume
+            else:
+                weight = np.einsum("ij,i,j->ij", weight, weight_x, weight_y) * alt_volume
             return np.ravel(weight)
         else:
             raise ValueError(f"The weight type parameter is not known, got {weight}")
